@@ -325,6 +325,58 @@ def h_columns(ctx):
     ctx.flag("orders-differ")
     ctx.nontrivial(header != cols)
 
+# ------------------------------------------------------------------------------------------------------
+THR_A, THR_B = (1.0, 5.0), (1.0, 3.0, 5.0)
+Q_A, Q_B = (0.1, 0.9), (0.1, 0.5, 0.9)
+
+
+def h_fields(ctx):
+    """Thresholds and quantile levels are coordinates too: each file stores its probabilities / quantile values under its own
+    list of thresholds / levels, in its own order, and another file may have more of them."""
+    seed = core.seed()
+    via = ctx.params["via"]
+    oa = ctx.choose("order:A", PERMS[2], free=True)
+    ob = ctx.choose("order:B", PERMS[3], free=True)
+    swap = ctx.choose("first-input", ("A", "B"), free=True)
+    locs = gen.std_locs(2, seed)
+    times = [T0, T0 + DAY]
+    inputs = []
+    for name, thr, qs, perm, salt in (("A", THR_A, Q_A, oa, 1), ("B", THR_B, Q_B, ob, 2)):
+        ai = gen.AInput(name, times, [0.0, 6.0], locs)
+        ai.keep_field_order = True
+        scrambled(ai, ["obs", "fcst"], values(seed), salt)
+        k = 0
+        for kind_, levels in (("p", thr), ("q", qs)):
+            for lv in permute(list(levels), perm):
+                d = {}
+                for n_, pos in enumerate(ai.positions()):
+                    # distinct per (file, kind, level, cell), inside [0, 1] for probabilities
+                    base = (salt * 37 + int(lv * 10) * 11 + n_ * 3) % 128
+                    d[pos] = base / 128.0 if kind_ == "p" else base / 4.0
+                ai.fields["%s%s" % (kind_, gen.fmt_num(lv))] = d
+                k += 1
+        inputs.append(ai)
+    if swap == "B":
+        inputs = inputs[::-1]
+    ref = RD.RefData(inputs)
+    kind, data, site, out = CD.make_data(inputs, via=via, subdir="c02fields")
+    if kind != "ok":
+        ctx.fail("fields:data-%s:%s" % (kind, site), stdout=out[-200:])
+        return
+    def close_list(got, exp):       # NetCDF stores the levels in single precision
+        got = [float(x) for x in got]
+        return len(got) == len(exp) and all(abs(a - b) < 1e-6 for a, b in zip(got, exp))
+    ctx.require(close_list(data.thresholds, [1.0, 5.0]), "fields:common-thresholds", actual=[float(x) for x in data.thresholds])
+    ctx.require(close_list(data.quantiles, [0.1, 0.9]), "fields:common-quantiles", actual=[float(x) for x in data.quantiles])
+    roles = [[("p", 1.0)], [("p", 5.0)], ["obs", ("p", 5.0)], [("p", 5.0), ("p", 1.0)], [("q", 0.1)], [("q", 0.9)], ["obs", ("q", 0.9), ("q", 0.1)]]
+    sig = CD.check_requests(ctx, data, ref, roles, ["all", "no", "location"], "fields")
+    ctx.observe((oa, ob, swap, sig))
+    ctx.outcome("via=%s" % via)
+    nat = oa == (0, 1) and ob == (0, 1, 2)
+    if not nat:
+        ctx.flag("orders-differ")
+    ctx.nontrivial(not nat)
+
 
 def plan(tier):
     q = tier == "quick"
@@ -335,7 +387,8 @@ def plan(tier):
          ("rows8", h_rows, {"sparse": False}), ("rows6-sparse", h_rows, {"sparse": True}),
          ("repeat-mem", h_repeat, {"via": "mem"}), ("repeat-nc", h_repeat, {"via": "nc"}),
          ("order2", h_order, {"n": 2}), ("order3", h_order, {"n": 3}),
-         ("columns", h_columns, {})]
+         ("columns", h_columns, {}),
+         ("fields-mem", h_fields, {"via": "mem"}), ("fields-text", h_fields, {"via": "text"}), ("fields-nc", h_fields, {"via": "nc"})]
     if not q:
         p.append(("order4", h_order, {"n": 4}))
     return p
